@@ -235,4 +235,86 @@ theorem C01_symmetry_is_the_last_known_group (o : ReadOpts) (ho : o.onlyFirstMod
   rw [hfi, key _ _ rfl]
   simp
 
+/-! ### SCALEn / ORIGXn → the two transformation matrices -/
+
+def scaleOf (o : ReadOpts) (il : Nat × List Char) : Option (Nat × List Flt) :=
+  match lexLine il.2 (il.1 + 1) o.level o.onlyAtomicCoords with
+  | .ok (.scale r v, _) => some (r, v)
+  | _ => none
+
+def origxOf (o : ReadOpts) (il : Nat × List Char) : Option (Nat × List Flt) :=
+  match lexLine il.2 (il.1 + 1) o.level o.onlyAtomicCoords with
+  | .ok (.origx r v, _) => some (r, v)
+  | _ => none
+
+/-- the rows after a list of row records: each record overwrites its own row -/
+def rowsAfter (rows : List (Option (List Flt))) (recs : List (Nat × List Flt)) : List (Option (List Flt)) :=
+  recs.foldl (fun rows rv => setRow rows rv.1 rv.2) rows
+
+theorem flushModel_rows (s : PState) : (flushModel s).scale = s.scale ∧ (flushModel s).origx = s.origx := by
+  unfold flushModel; split <;> (try split) <;> exact ⟨rfl, rfl⟩
+
+theorem stepItem_rows (o : ReadOpts) (s : PState) (ctx : Nat × List Char) (item : LexItem) :
+    (stepItem o s ctx item).1.scale = (match item with | .scale r v => setRow s.scale r v | _ => s.scale) ∧
+    (stepItem o s ctx item).1.origx = (match item with | .origx r v => setRow s.origx r v | _ => s.origx) := by
+  obtain ⟨hf1, hf2⟩ := flushModel_rows s
+  cases item
+  case atom => simp only [stepItem]; (repeat' split) <;> exact ⟨rfl, rfl⟩
+  all_goals first
+    | (simp only [stepItem]; exact ⟨rfl, rfl⟩)
+    | (simp only [stepItem]; (repeat' split) <;> first | exact ⟨rfl, rfl⟩ | exact ⟨hf1, hf2⟩ | (simp [hf1, hf2]; done))
+
+theorem stepLine_rows (o : ReadOpts) (s : PState) (il : Nat × List Char) (hs : s.stopped = false) :
+    (stepLine o s (il.1 + 1) il.2).scale = rowsAfter s.scale (scaleOf o il).toList ∧
+    (stepLine o s (il.1 + 1) il.2).origx = rowsAfter s.origx (origxOf o il).toList := by
+  unfold stepLine scaleOf origxOf rowsAfter
+  rw [if_neg (by simp [hs])]
+  cases hl : lexLine il.2 (il.1 + 1) o.level o.onlyAtomicCoords with
+  | error e => simp
+  | ok p =>
+    obtain ⟨item, errs⟩ := p
+    have h3 := stepItem_rows o { s with errors := [] } (il.1 + 1, il.2) item
+    show (stepItem o { s with errors := [] } (il.1 + 1, il.2) item).1.scale = _ ∧
+      (stepItem o { s with errors := [] } (il.1 + 1, il.2) item).1.origx = _
+    rw [h3.1, h3.2]
+    cases item <;> exact ⟨rfl, rfl⟩
+
+/-- **the SCALE and ORIGX matrices of the structure are built from the SCALEn / ORIGXn records alone**: each record
+overwrites the row it names, in file order, and a matrix is present exactly when all three rows were given
+(reading without only-first-model) -/
+theorem C01_scale_and_origx_from_their_records (o : ReadOpts) (ho : o.onlyFirstModel = false) (lines : List (List Char)) :
+    (readPdbCore o lines).1.info.scale =
+      rowsFull (rowsAfter [none, none, none] (((List.range lines.length).zip lines).filterMap (scaleOf o))) ∧
+    (readPdbCore o lines).1.info.origx =
+      rowsFull (rowsAfter [none, none, none] (((List.range lines.length).zip lines).filterMap (origxOf o))) := by
+  have key : ∀ (zl : List (Nat × List Char)) (s : PState), s.stopped = false →
+      (zl.foldl (fun s (il : Nat × List Char) => stepLine o s (il.1 + 1) il.2) s).scale =
+        rowsAfter s.scale (zl.filterMap (scaleOf o)) ∧
+      (zl.foldl (fun s (il : Nat × List Char) => stepLine o s (il.1 + 1) il.2) s).origx =
+        rowsAfter s.origx (zl.filterMap (origxOf o)) := by
+    intro zl
+    induction zl with
+    | nil => intro s _; exact ⟨rfl, rfl⟩
+    | cons x xs ih =>
+      intro s hs
+      have h1 := (stepLine_meta o ho s x hs).1
+      obtain ⟨ha, hb⟩ := stepLine_rows o s x hs
+      obtain ⟨ia, ib⟩ := ih _ h1
+      simp only [List.foldl_cons]
+      rw [ia, ib, ha, hb]
+      constructor
+      · cases hh : scaleOf o x <;> simp [hh, rowsAfter]
+      · cases hh : origxOf o x <;> simp [hh, rowsAfter]
+  obtain ⟨hf1, hf2⟩ := flushModel_rows (((List.range lines.length).zip lines).foldl
+    (fun s (il : Nat × List Char) => stepLine o s (il.1 + 1) il.2) ({} : PState))
+  obtain ⟨ka, kb⟩ := key ((List.range lines.length).zip lines) ({} : PState) rfl
+  unfold readPdbCore
+  simp only
+  rw [hf1, hf2, ka, kb]
+  constructor
+  · show (match rowsFull _ with | some m => _ | none => _ : Option (List Flt) × List PDiag).1 = _
+    split <;> simp_all
+  · show (match rowsFull _ with | some m => _ | none => _ : Option (List Flt) × List PDiag).1 = _
+    split <;> simp_all
+
 end PdbModel
